@@ -344,6 +344,7 @@ type caseRun struct {
 	handlers map[int]server.HandlerFunc
 	hsTerm   []string
 	fails    []fail
+	shared   []*security.SecurityConfig // the server's long-lived config objects
 	checks   int
 	mu       sync.Mutex
 }
@@ -411,16 +412,18 @@ func (r *caseRun) postAuthWrapper(authUser, peer string, authn, enc bool) (strin
 func (r *caseRun) apply(t *Tables) {
 	s := r.srv
 	s.SecurityConfig = r.mkCfg(t.Default)
+	if s.SecurityConfig != nil {
+		r.shared = append(r.shared, s.SecurityConfig)
+	}
 	if t.HasPerCmd {
 		tt := t
-		s.SecurityConfigForCommand = func(c int) *security.SecurityConfig {
-			for i := range tt.PerCmd {
-				if tt.PerCmd[i].Cmd == c {
-					return r.mkCfg(&tt.PerCmd[i].P)
-				}
-			}
-			return nil
+		// one long-lived config object per command, as a daemon would hold them
+		objs := map[int]*security.SecurityConfig{}
+		for i := range tt.PerCmd {
+			objs[tt.PerCmd[i].Cmd] = r.mkCfg(&tt.PerCmd[i].P)
+			r.shared = append(r.shared, objs[tt.PerCmd[i].Cmd])
 		}
+		s.SecurityConfigForCommand = func(c int) *security.SecurityConfig { return objs[c] }
 	} else {
 		s.SecurityConfigForCommand = nil
 	}
@@ -717,7 +720,6 @@ func (r *caseRun) runConn(sp *ConnSpec) (obsTerm string, connTerm string) {
 	cr := &connRun{spec: sp}
 	r.cur = cr
 	r.apply(r.spec.Tables[sp.Tables])
-	t0 := r.spec.Tables[sp.Tables]
 
 	sc, cc := net.Pipe()
 	rc := &recConn{Conn: sc, addr: sp.Peer}
@@ -897,6 +899,15 @@ func (r *caseRun) runConn(sp *ConnSpec) (obsTerm string, connTerm string) {
 			r.bad(cr, "connection-not-closed", "ServeConn returned (err=%v) after running %d of %v without closing the connection", serr, len(cr.invs), sp.Cmds)
 		}
 	}
+	// per-connection copy of the shared configuration: a handshake must not
+	// write this connection's key material into the server's long-lived objects
+	r.checks++
+	for _, cfg := range r.shared {
+		if cfg.ECDHPublicKey != "" {
+			r.bad(cr, "shared-config-mutated", "a handshake wrote its ephemeral ECDH public key into a SecurityConfig shared by all connections")
+			cfg.ECDHPublicKey = ""
+		}
+	}
 	endc := 0
 	switch {
 	case serr != nil:
@@ -907,7 +918,7 @@ func (r *caseRun) runConn(sp *ConnSpec) (obsTerm string, connTerm string) {
 
 	// terms
 	var steps []string
-	cur := t0
+	cur := sp.Tables
 	n := len(sp.Cmds)
 	for k := 0; k < n; k++ {
 		stp := StepSpec{Ret: "ka"}
@@ -915,16 +926,16 @@ func (r *caseRun) runConn(sp *ConnSpec) (obsTerm string, connTerm string) {
 			stp = sp.Steps[k]
 		}
 		if stp.Tables != nil {
-			cur = r.spec.Tables[*stp.Tables]
+			cur = *stp.Tables
 		}
 		next := "None"
 		if k+1 < n && sp.Kind != "raw" {
 			next = "(Some " + core.Z(int64(sp.Cmds[k+1])) + ")"
 		}
 		ret := map[string]string{"ka": "HKeepAlive", "done": "HDone", "err": "HErr", "open": "HKeepOpen"}[stp.Ret]
-		steps = append(steps, fmt.Sprintf("(Build_tstep %s %s %s)", ret, next, cur.term()))
+		steps = append(steps, fmt.Sprintf("(Build_tstep %s %s %s)", ret, next, core.Nat(cur)))
 	}
-	connTerm = fmt.Sprintf("(TConn (Build_tconn %s %d %s %s %s))", t0.term(), addrCode[sp.Peer], first, hs, core.List(steps))
+	connTerm = fmt.Sprintf("(TConn (Build_tconn %s %d %s %s %s))", core.Nat(sp.Tables), addrCode[sp.Peer], first, hs, core.List(steps))
 	var is []string
 	for _, i := range cr.invs {
 		is = append(is, i.term())
@@ -1001,7 +1012,11 @@ func runCase(spec *CaseSpec) (term string, checks int, fails []fail) {
 	for _, s := range r.sess {
 		security.GetSessionCache().Invalidate(s.sid)
 	}
-	return fmt.Sprintf("(CHist %s %s)", core.List(evs), core.List(obs)), r.checks, r.fails
+	var tabs []string
+	for _, t := range spec.Tables {
+		tabs = append(tabs, t.term())
+	}
+	return fmt.Sprintf("(CHist %s %s %s)", core.List(tabs), core.List(evs), core.List(obs)), r.checks, r.fails
 }
 
 // ---- generation --------------------------------------------------------------------------------
@@ -1210,7 +1225,7 @@ func expand(s *CaseSpec, maxLen int) []*CaseSpec {
 	}
 	sp := s.Events[0].Conn
 	depth := maxLen
-	if !strings.HasPrefix(s.Class, "tree/none/") && !strings.HasPrefix(s.Class, "tree/users/") {
+	if !strings.HasPrefix(s.Class, "tree/none/") {
 		depth = maxLen - 1
 	}
 	if len(sp.Cmds) >= depth {
@@ -1341,8 +1356,8 @@ func tableCases(c *core.Ctx) {
 		one(&p, 0, nil)
 		one(&p, 1, nil)
 		one(&allReq, 2, &p)
-		one(nil, 2, &p)
 		if !quick {
+			one(nil, 2, &p)
 			one(&opt, 2, &p)
 		}
 	}
@@ -1360,16 +1375,22 @@ func tableCases(c *core.Ctx) {
 	nilDef.Default = nil
 	nilDef.HasPerCmd = false
 	tabs = append(tabs, nilDef)
+	satUsers := []string{"", osUser, "alice", "bob"}
+	if quick {
+		satUsers = []string{"", osUser, "alice"}
+		tabs = append(tabs[:5:5], tabs[8:]...)
+	}
 	for _, t := range tabs {
 		r := &caseRun{spec: &CaseSpec{}, sids: map[string]int{}, handlers: map[int]server.HandlerFunc{}}
 		cfg0 := r.mkCfg(&opt)
 		cfg0.PostAuthPolicy = nil
 		r.srv = server.New(cfg0)
 		r.apply(t)
+		var satQ, postQ []string
 		for _, cmd := range allCmds {
 			reg, raw, _ := r.srv.VerifLookup(cmd)
 			for _, peer := range []string{addr1, addr2} {
-				for _, u := range []string{"", osUser, "alice", "bob"} {
+				for _, u := range satUsers {
 					for ai := 0; ai < 5; ai++ {
 						var neg *security.SecurityNegotiation
 						negT := "None"
@@ -1404,7 +1425,7 @@ func tableCases(c *core.Ctx) {
 						if got != want {
 							c.OracleFail("session-check-wrong", fmt.Sprintf("sessionSatisfies(cmd=%d, peer=%s, auth=%t enc=%t user=%q) = %t, the rule says %t", cmd, peer, a, e, u, got, want), d)
 						}
-						c.AddCase(fmt.Sprintf("(CSat %s %s %d %s %s %s %s)", t.term(), core.Z(int64(cmd)), addrCode[peer], negT, core.Bool(got), core.Bool(reg), core.Bool(raw)), d)
+						satQ = append(satQ, fmt.Sprintf("(%s, %d, %s, %s, %s, %s)", core.Z(int64(cmd)), addrCode[peer], negT, core.Bool(got), core.Bool(reg), core.Bool(raw)))
 						c.Count("table/sessionSatisfies")
 					}
 				}
@@ -1429,11 +1450,14 @@ func tableCases(c *core.Ctx) {
 							c.OracleFail("advertised-command-not-authenticated", fmt.Sprintf("ValidCommands contains %d which is not an authenticated command", v), d)
 						}
 					}
-					c.AddCase(fmt.Sprintf("(CPost %s %d %d %s %s %s)", t.term(), userCode(u), addrCode[peer], core.Bool(a), core.Bool(e), core.List(vs)), d)
+					postQ = append(postQ, fmt.Sprintf("(%d, %d, %s, %s, %s)", userCode(u), addrCode[peer], core.Bool(a), core.Bool(e), core.List(vs)))
 					c.Count("table/postAuthPolicy")
 				}
 			}
 		}
+		c.AddCase(fmt.Sprintf("(CSat %s %s)", t.term(), core.List(satQ)), map[string]interface{}{"class": "sat", "tables": t})
+		c.AddCase(fmt.Sprintf("(CPost %s %s)", t.term(), core.List(postQ)), map[string]interface{}{"class": "post", "tables": t})
+		c.Evaluated(len(satQ) + len(postQ) - 2)
 	}
 }
 
